@@ -316,14 +316,38 @@ def main():
             units = [u for u in units if a.only in u.get('name', u.get('entry', ''))]
             out.cov['exhaustive'] = False
         tus = {}
+        # E2 units (a handful of single-threaded interpreter + z3 processes) run beside the E1 units (16 CBMC processes at a time) - each into an
+        # Outcome of its own, merged when both are done - instead of adding their minutes to the wall time of the check
+        import threading
+        side = []
+        if a.tier == 'quick' and not a.only:
+            import e2
+            for u in units:
+                if u.get('engine', 'e1') != 'e1':
+                    o2 = Outcome(); err2 = []
+                    def work(u=u, o2=o2, err2=err2):
+                        try: e2.run_unit(prop, u, a.tier, o2, known, workdir)
+                        except Exception: err2.append('internal error in E2 unit %s: %s' % (u.get('name'), traceback.format_exc()))
+                    th = threading.Thread(target=work); th.start()
+                    side.append((u, th, o2, err2))
         for u in units:
             if u.get('engine', 'e1') == 'e1':
                 run_e1_unit(prop, u, a.tier, out, known, workdir, tus)
-            else:
+            elif not side:
                 import e2
                 e2.run_unit(prop, u, a.tier, out, known, workdir)
             if not u.get('exhaustive', True):
                 out.cov['exhaustive'] = False
+        for u, th, o2, err2 in side:
+            th.join()
+            out.violations += o2.violations; out.undecided += o2.undecided + err2
+            for k in o2.known:
+                if k not in out.known: out.known.append(k)
+            out.functions |= o2.functions; out.assumptions |= o2.assumptions
+            for k, v in o2.cov.items():
+                if isinstance(v, bool): out.cov[k] = out.cov[k] and v
+                elif isinstance(v, (int, float)): out.cov[k] += v
+                elif isinstance(v, list): out.cov[k] += v
     except e1.BuildError as e:
         err = 'build error: ' + str(e)
     except Exception as e:
